@@ -333,6 +333,50 @@ class Ctx:
             if r['status'] != 'caught':
                 errors.append(f"seeded change {r['id']} is no longer caught "
                               f"({r['status']})")
+        # (f) independently written behaviour-preserving refactorings
+        # (neutral/<id>/patch.diff): this property's check must stay silent
+        # on every one of them, whichever property they were written for
+        nroot = os.path.join(VERIF, 'neutral')
+        nids = sorted(d for d in (os.listdir(nroot)
+                                  if os.path.isdir(nroot) else [])
+                      if os.path.exists(os.path.join(nroot, d, 'patch.diff')))
+
+        def neutral(nid: str) -> dict:
+            tmp = tempfile.mkdtemp(prefix='pymap-neutral-')
+            try:
+                shutil.copytree(os.path.join(self.proj.root, 'pymap'),
+                                os.path.join(tmp, 'pymap'),
+                                ignore=shutil.ignore_patterns('__pycache__'))
+                pr = subprocess.run(
+                    ['patch', '-p1', '-s', '-i',
+                     os.path.join(nroot, nid, 'patch.diff')], cwd=tmp,
+                    capture_output=True, text=True)
+                if pr.returncode != 0:
+                    return {'id': nid, 'status': 'does-not-apply'}
+                env = dict(os.environ, PYMAP_ROOT=tmp, SA_NO_EVIDENCE='1',
+                           SA_NO_CACHE_WRITE='1', VERIF_TIER='quick')
+                r = subprocess.run([os.path.join(VERIF, 'check'), self.prop],
+                                   cwd=VERIF, env=env, capture_output=True,
+                                   text=True, timeout=900)
+                return {'id': nid, 'status': {0: 'silent', 1: 'ALARM'}.get(
+                    r.returncode, 'undecided (exit 2)')}
+            finally:
+                shutil.rmtree(tmp, ignore_errors=True)
+        with ThreadPoolExecutor(int(os.environ.get('SA_JOBS', '16'))) as ex:
+            nres = list(ex.map(neutral, nids))
+        noisy = [r for r in nres if r['status'] not in ('silent',
+                                                        'does-not-apply')]
+        self.extra_coverage['neutral_refactorings'] = {
+            'total': len(nres),
+            'silent': sum(1 for r in nres if r['status'] == 'silent'),
+            'not_applicable_any_more': [r['id'] for r in nres
+                                        if r['status'] == 'does-not-apply'],
+            'noisy': noisy,
+            'note': 'behaviour-preserving refactorings written by '
+                    'sub-agents that saw only a property text; regression '
+                    'figure, see DESIGN.md section 15'}
+        for r in noisy:
+            errors.append(f"neutral refactoring {r['id']}: {r['status']}")
         return errors
 
     def _write_evidence(self, total, ok, undec, nknown, nviol, nontrivial,
